@@ -65,6 +65,7 @@ func genC09J(c *Ctx) *Plan {
 		p.P["veto"] = int64(r.pick(0, 1, 2)) // 1: second host's delegate vetoes the join, 2: joiner vetoes its second merge
 	}
 	p.YieldOff = genYieldOff(r)
+	p.Cfg.AliveDel = r.chance(0.5) // an accepting AliveDelegate: a preemption point if it is ever called without the node lock
 	return p
 }
 
@@ -247,6 +248,11 @@ func genC09P(c *Ctx) *Plan {
 }
 
 func c09Vsn(v int64) []uint8 {
+	if v >= 1_000_000 {
+		// generated 6-tuple, one decimal digit per field
+		d := func(k int64) uint8 { return uint8((v / k) % 10) }
+		return []uint8{d(100000), d(10000), d(1000), d(100), d(10), d(1)}
+	}
 	switch v {
 	case 1:
 		return []uint8{1, 3, 2, 0, 0, 0}
@@ -551,6 +557,12 @@ func execC09P(c *Ctx) {
 		for i := range p.Ops {
 			if p.Ops[i].Kind == "ent" {
 				p.Ops[i].C = int64(r.pick(0, 0, 0, 1, 2, 3, 4, 5))
+				if r.chance(0.4) {
+					// free 6-tuples, biased to delegate ranges that start at 0 so that only an *upper*
+					// bound (of a local or of a remote entry) decides compatibility
+					p.Ops[i].C = 1_000_000 + int64(r.pick(1, 1, 2))*100000 + int64(r.pick(3, 5, 5))*10000 + int64(r.pick(2, 2, 3))*1000 +
+						int64(r.pick(0, 0, 0, 1, 2))*100 + int64(r.pick(0, 3, 3, 5))*10 + int64(r.pick(0, 1, 3, 3, 5))
+				}
 			}
 		}
 		setup()
